@@ -502,6 +502,9 @@ var coreAxioms = []axiom{
 	{"b.sub", "(assert (forall ((s Bytes)) (! (= (b.sub s 0 (b.len s)) s) :pattern ((b.sub s 0 (b.len s))))))"},
 	{"b.sub", "(assert (forall ((s Bytes) (i Int)) (! (= (b.sub s i i) b.empty) :pattern ((b.sub s i i)))))"},
 	{"b.sub", "(assert (forall ((m (Array Int Int)) (o Int) (n Int) (i Int) (j Int)) (! (=> (and (<= 0 i) (<= i j) (<= j n)) (= (b.sub (b.of m o n) i j) (b.of m (+ o i) (- j i)))) :pattern ((b.sub (b.of m o n) i j)))))"},
+	{"b.sub", "(assert (forall ((a Bytes) (b Bytes)) (! (= (b.sub (b.cat a b) 0 (b.len a)) a) :pattern ((b.sub (b.cat a b) 0 (b.len a))))))"},
+	{"b.sub", "(assert (forall ((a Bytes) (b Bytes)) (! (= (b.sub (b.cat a b) (b.len a) (b.len (b.cat a b))) b) :pattern ((b.sub (b.cat a b) (b.len a) (b.len (b.cat a b)))))))"},
+	{"b.sub", "(assert (forall ((s Bytes) (i Int) (j Int) (k Int) (l Int)) (! (=> (and (<= 0 i) (<= i j) (<= j (b.len s)) (<= 0 k) (<= k l) (<= l (- j i))) (= (b.sub (b.sub s i j) k l) (b.sub s (+ i k) (+ i l)))) :pattern ((b.sub (b.sub s i j) k l)))))"},
 	{"wraps", "(assert (forall ((e Iface)) (! (wraps e e) :pattern ((wraps e e)))))"},
 	{"wraps", "(assert (forall ((e Iface)) (! (= (wraps (mk-iface 0 0) e) (= e (mk-iface 0 0))) :pattern ((wraps (mk-iface 0 0) e)))))"},
 }
